@@ -30,17 +30,9 @@ TRACE_SCOPE = {
     "hydroelastic_contact/_rigid_body.py": ["RigidBody.aabb", "RigidBody.aabbs", "RigidBody.aabb_tree", "RigidBody.express_in"],
     "hydroelastic_contact/_mesh_processing.py": ["tetrahedral_mesh_aabbs"],
 }
-KNOWN_FILE = cm.VERIF / "known_findings_C04.json"
-
-
 def load_known():
-    """status=finding entries for C04: the merged known_findings.json wins, else the local file."""
-    out = {e["id"]: e for e in cm.load_known(PID)}
-    if KNOWN_FILE.exists():
-        for e in json.loads(KNOWN_FILE.read_text())["entries"]:
-            if e.get("property") == PID and e.get("status") == "finding":
-                out.setdefault(e["id"], e)
-    return out
+    """status=finding entries for C04 of /verif/known_findings.json"""
+    return {e["id"]: e for e in cm.load_known(PID)}
 
 
 # ---------------------------------------------------------------- generation
@@ -421,7 +413,7 @@ def run(tier, seed, replay=None):
     ndiff = 0
     nan_model = 0
     try:
-        outs = cm.coq_eval_lines(PID, sc.HEADER, exprs, per_file=max(4, len(exprs) // (cm.NCPU * 2) + 1))
+        outs = sc.coq_eval_lines_retry(PID, sc.HEADER, exprs, per_file=max(4, len(exprs) // (cm.NCPU * 2) + 1))
         for i, o in zip(idx, outs):
             m = sc.parse_coq_value(o)
             if not sc.finite(m):
